@@ -48,7 +48,7 @@ func init() {
 	}
 	ev.Register(&ev.Prop{
 		ID:    "C16N",
-		Rule:  "(b) the same scripts after name edits only (delete / duplicate / rename a declaration, rename or add a use, refer to a later declaration from an origin); oracle: the multiset of (kind in {undeclared, repeated, unused}, name, token range) reported equals an independent name model over the generator's tree and printer spans - a use with no earlier declaration is undeclared, every declaration of a name after the first is repeated, a use inside the origin of its own declaration counts as not yet declared; a first declaration with no later use is unused; a variable used only before its declaration may or may not be reported unused; non-trivial = the edit changed the expected multiset",
+		Rule:  "(b) the same scripts after name edits only (delete / duplicate / rename a declaration, rename or add a use, duplicate a use into an extra argument of a call, refer to a later declaration from an origin); oracle: the multiset of (kind in {undeclared, repeated, unused}, name, token range) reported equals an independent name model over the generator's tree and printer spans - a use with no earlier declaration is undeclared, every declaration of a name after the first is repeated, a use inside the origin of its own declaration counts as not yet declared; a first declaration with no later use is unused; a variable used only before its declaration may or may not be reported unused; non-trivial = the edit changed the expected multiset",
 		New:   func() any { return &C16NCase{} },
 		Check: checkC16N,
 	})
@@ -125,7 +125,7 @@ func genC16N(t *rapid.T, tier string) any {
 				vars = append(vars, e)
 			}
 		})
-		op := gen.Uniform(t, "edit", 7)
+		op := gen.Uniform(t, "edit", 8)
 		switch {
 		case op == 0 && len(s.Vars) > 0: // delete a declaration
 			j := gen.Uniform(t, "del", len(s.Vars))
@@ -161,6 +161,17 @@ func genC16N(t *rapid.T, tier string) any {
 			}
 			s.Vars[j].Origin = &gen.Call{Fn: "meta", Args: []*gen.Expr{gen.Var(s.Vars[l].Name), gen.Str("k")}}
 			c.Edit += "use-before-declaration $" + s.Vars[l].Name + "; "
+		case op == 7: // a use duplicated into an extra argument of a call (declared or not)
+			name := "nosuch_extra"
+			if len(s.Vars) > 0 && gen.Chance(t, "extra.declared", 60) {
+				name = s.Vars[gen.Uniform(t, "extra.var", len(s.Vars))].Name
+			}
+			call := gen.Pick(t, "extra.call", []*gen.Call{
+				{Fn: "set_tx_meta", Args: []*gen.Expr{gen.Str("k"), gen.NumI(1), gen.Var(name)}},
+				{Fn: "set_account_meta", Args: []*gen.Expr{gen.Acct("a"), gen.Str("k"), gen.NumI(1), gen.Var(name), gen.Var(name)}},
+			})
+			s.Stmts = append(s.Stmts, &gen.Stmt{Kind: gen.StCall, Call: call})
+			c.Edit += "use-in-extra-argument $" + name + "; "
 		case op == 6 && len(vars) > 0 && len(s.Vars) > 0: // retarget a use to another declared variable
 			e := gen.Pick(t, "retarget", vars)
 			j := gen.Uniform(t, "retargetto", len(s.Vars))
